@@ -367,6 +367,115 @@ func checkC15(ctx *core.Ctx, rep *core.Report) {
 			}
 		}
 	}
+	// ---- file-sequence product: every sequence of ≤ 3 files over the file shapes (content encoding ×
+	// telling / non-telling suffix) × every -format value. Each file is judged by its own suffix, else
+	// by -format; nothing carries over from one file to the next. The run prints one object per
+	// decodable file up to the first undecodable one and then fails.
+	{
+		var cs []*seeds.Seed
+		for i := range objs {
+			if objs[i].Kind == seeds.Cert && len(cs) < 3 {
+				cs = append(cs, &objs[i])
+			}
+		}
+		type shape struct{ enc, ext string }
+		shapes := []shape{{"pem", ".pem"}, {"der", ".der"}, {"pem", ".txt"}, {"der", ".bin"}, {"base64", ".b64"}}
+		formats := []string{"", "pem", "der", "base64"}
+		maxLen := 3
+		if len(cs) == 3 {
+			var sl lint.SourceList
+			_ = sl.FromString("RFC5280")
+			var wants []*zlint.ResultSet
+			paths := map[string]string{}
+			for k, sd := range cs {
+				o, _ := zl.Parse(sd.Kind, sd.DER)
+				w, _ := c15Expect(o, lint.FilterOptions{IncludeSources: sl}, "")
+				wants = append(wants, w)
+				for _, sh := range shapes {
+					paths[fmt.Sprintf("%d%s%s", k, sh.enc, sh.ext)] = write(fmt.Sprintf("seq%d_%s%s", k, sh.enc, sh.ext), encode(sd, sh.enc))
+				}
+			}
+			var rec func(seq []int)
+			rec = func(seq []int) {
+				if len(seq) > 0 {
+					for _, f := range formats {
+						idx++
+						if !ctx.Mine(idx) {
+							continue
+						}
+						var r cliRun
+						r.args = []string{"-includeSources", "RFC5280"}
+						if f != "" {
+							r.args = append(r.args, "-format", f)
+						}
+						firstBad := -1
+						for k, si := range seq {
+							sh := shapes[si]
+							r.args = append(r.args, paths[fmt.Sprintf("%d%s%s", k, sh.enc, sh.ext)])
+							eff := f
+							if eff == "" {
+								eff = "pem"
+							}
+							if sh.ext == ".pem" || sh.ext == ".der" {
+								eff = sh.ext[1:]
+							}
+							if eff != sh.enc && firstBad < 0 {
+								firstBad = k
+							}
+						}
+						out, code, err := r.exec()
+						rep.Inc("states")
+						rep.Inc("transitions")
+						rep.Inc("cli_runs")
+						rep.Inc("file_sequences")
+						if err != nil {
+							rep.InternalError("exec: %v", err)
+							continue
+						}
+						rep.Inc("validated")
+						nGood := len(seq)
+						if firstBad >= 0 {
+							nGood = firstBad
+						}
+						if firstBad < 0 && code != 0 {
+							v("exit_nonzero_on_good_input", fmt.Sprintf("exit %d although every file decodes under its own suffix / -format", code), r, nil)
+						}
+						if firstBad >= 0 && code == 0 {
+							v("exit_zero_on_undecodable_input", fmt.Sprintf("exit 0 although file %d cannot be decoded in the format that applies to it", firstBad+1), r, nil)
+						}
+						dec := json.NewDecoder(bytes.NewReader(out))
+						k := 0
+						for ; ; k++ {
+							var got map[string]*lint.LintResult
+							if err := dec.Decode(&got); err != nil {
+								break
+							}
+							if k < nGood && wants[k] != nil {
+								if d := compareResults(wants[k], got); d != "" {
+									v("multi_file_order", fmt.Sprintf("object %d does not belong to input %d: %s", k+1, k+1, d), r, nil)
+								}
+							}
+						}
+						if k < nGood {
+							v("multi_file_missing_object", fmt.Sprintf("%d result objects for %d decodable files (each file is judged by its own suffix, else by -format)", k, nGood), r, nil)
+						}
+						if k > nGood {
+							v("result_for_undecodable_input", fmt.Sprintf("%d result objects although only %d files precede the first undecodable one", k, nGood), r, nil)
+						}
+					}
+				}
+				if len(seq) == maxLen {
+					return
+				}
+				for i := range shapes {
+					rec(append(append([]int{}, seq...), i))
+				}
+			}
+			rec(nil)
+		} else {
+			rep.Hole("fewer than three certificate objects for the file-sequence product")
+		}
+	}
 	if ctx.Shard != 0 {
 		return
 	}
